@@ -129,3 +129,38 @@ RULES = {
 
 def apply(rule, text):
     return RULES[rule](text)
+
+
+def r11_into(text):
+    """let X: T = E.into();  =>  let X: T = T::from(E);   (std blanket impl<T, U: From<T>> Into<U> for T)"""
+    m = rsx.mask(text)
+    n = 0
+    out, last = [], 0
+    for mm in re.finditer(r'\blet\s+(\w+)\s*:\s*(\w+)\s*=\s*', m):
+        # expression runs to the `;` at depth 0
+        depth = 0
+        end = None
+        for j in range(mm.end(), len(m)):
+            ch = m[j]
+            if ch in '([{':
+                depth += 1
+            elif ch in ')]}':
+                depth -= 1
+            elif ch == ';' and depth == 0:
+                end = j
+                break
+        if end is None:
+            continue
+        expr = text[mm.end():end]
+        if not expr.rstrip().endswith('.into()'):
+            continue
+        inner = expr.rstrip()[:-len('.into()')].rstrip()
+        out.append(text[last:mm.end()])
+        out.append('%s::from(%s)' % (mm.group(2), inner))
+        last = end
+        n += 1
+    out.append(text[last:])
+    return ''.join(out), n
+
+
+RULES['R11'] = r11_into
